@@ -17,8 +17,8 @@ def prog(nodes, out):
     return p
 
 W = {}
-# dup_param (D15)
-W['KF-DUP'] = dict(prog=prog([N('N0', plain_params=['x']), N('N1', params=[['a', ['in', 'N0']]]),
+# dup_param (D15; repaired as D33 - the witness lives on as witnesses/D33.json)
+W['D33'] = dict(prog=prog([N('N0', plain_params=['x']), N('N1', params=[['a', ['in', 'N0']]]),
                               N('N2', params=[['p', ['in', 'N1']], ['q', ['in', 'N1']]])], 'N2'), store=False)
 # rec_two_scopes (D10)
 W['KF-REC2'] = dict(prog=prog([
